@@ -33,6 +33,9 @@ RULE = (
     "steps containing a duplicate insertion, an aliased operation, an intruder or a singleton "
     "replacement; (records) = records that differ only in case or are unequal with a shared prefix"
 )
+RULE += (
+    " Round 10 added: TTL of symmetric difference (minimum of the two when the other set contributes records to a non-empty set), TTL-sensitive openings."
+)
 ASSUMPTIONS = [
     "reference canonical form: vlib/ref/canon.py (RFC 4034 6.2 minus NSEC); class CH 'A' is outside "
     "that list's scope and is excluded from the canonical-equality comparison",
